@@ -12,10 +12,11 @@ Definition sigs_complete : True := gen_sigs_complete.
 Lemma all_sigs_ok : forallb sig_ok gen_sigs = true.
 Proof. vm_compute. reflexivity. Qed.
 
-Lemma sig_ok_of g : In g gen_sigs -> rule_U g = true /\ rule_B g = true /\ rule_L g = true.
+Lemma sig_ok_of g : In g gen_sigs -> rule_U g = true /\ rule_B g = true /\ rule_L g = true /\ rule_S g = true.
 Proof.
   intros H. pose proof (proj1 (forallb_forall sig_ok gen_sigs) all_sigs_ok g H) as Hg.
-  unfold sig_ok in Hg. apply andb_prop in Hg. destruct Hg as (Hg & HL). apply andb_prop in Hg. destruct Hg as (HU & HB).
+  unfold sig_ok in Hg. apply andb_prop in Hg. destruct Hg as (Hg & HS). apply andb_prop in Hg. destruct Hg as (Hg & HL).
+  apply andb_prop in Hg. destruct Hg as (HU & HB).
   repeat split; assumption.
 Qed.
 
@@ -41,7 +42,7 @@ Qed.
 Theorem return_lifetimes_bound g l : In g gen_sigs -> In l (s_ret_lts g) ->
   (In l (s_fn_lts g) \/ In l (s_impl_lts g)) /\ (In l (s_fn_lts g) -> In l (s_in_lts g)).
 Proof.
-  intros H Hl. destruct (sig_ok_of g H) as (_ & _ & HL). unfold rule_L in HL.
+  intros H Hl. destruct (sig_ok_of g H) as (_ & _ & HL & _). unfold rule_L in HL.
   pose proof (proj1 (forallb_forall _ _) HL l Hl) as Hx. cbv beta in Hx.
   apply andb_prop in Hx. destruct Hx as (H1 & H2).
   assert (mem_In : forall x ls, mem_s x ls = true <-> In x ls).
@@ -51,6 +52,19 @@ Proof.
   split.
   - apply orb_true_iff in H1. destruct H1 as [H1|H1]; [left|right]; apply mem_In; exact H1.
   - intros Hf. apply mem_In in Hf. rewrite Hf in H2. cbn [implb] in H2. apply mem_In. exact H2.
+Qed.
+
+Theorem shared_view_of_unique_handle_reborrows g l : In g gen_sigs ->
+  unique_handle (s_owner g) = true -> s_recv g = RecvRef -> hd_error (s_impl_lts g) = Some l ->
+  ~ In l (s_ret_lts g).
+Proof.
+  intros H Hu Hr Hl Hin. destruct (sig_ok_of g H) as (_ & _ & _ & HS). unfold rule_S in HS.
+  rewrite Hu, Hr in HS. cbn [recv_shared andb implb] in HS.
+  destruct (s_impl_lts g) as [|l0 r]; [discriminate Hl|]. cbn [hd_error] in Hl. injection Hl as ->.
+  apply negb_true_iff in HS.
+  assert (Hm : mem_s l (s_ret_lts g) = true).
+  { unfold mem_s. apply existsb_exists. exists l. split; [exact Hin|apply String.eqb_refl]. }
+  rewrite Hm in HS. discriminate HS.
 Qed.
 
 (* non-vacuity: the methods one thinks of are in the list and are classified as expected *)
@@ -72,9 +86,20 @@ Proof. vm_compute. split; reflexivity. Qed.
 Example into_mut_consumes :
   match find_sig "map::OccupiedEntry" "into_mut" with Some g => ret_unique g = true /\ s_recv g = RecvOwn | None => False end.
 Proof. vm_compute. split; reflexivity. Qed.
+Example drain_rustc_iter_reborrows :
+  match find_sig "map::Drain" "rustc_iter" with
+  | Some g => unique_handle (s_owner g) = true /\ s_recv g = RecvRef /\ s_ret_elided g = true /\ s_ret_lts g = []
+  | None => False end.
+Proof. vm_compute. repeat split. Qed.
+Example vacant_entry_ref_key_copies_the_shared_lifetime :
+  match find_sig "map::VacantEntryRef" "key" with
+  | Some g => unique_handle (s_owner g) = true /\ s_recv g = RecvRef /\ s_impl_lts g = ["a"; "b"] /\ s_ret_lts g = ["b"]
+  | None => False end.
+Proof. vm_compute. repeat split. Qed.
 Example counts : (length gen_sigs >= 200 /\ length (filter ret_unique gen_sigs) >= 80 /\ length (filter ret_borrows gen_sigs) >= 120)%nat.
 Proof. vm_compute. repeat split; repeat constructor. Qed.
 
 Print Assumptions unique_needs_unique_receiver.
 Print Assumptions borrow_has_source.
 Print Assumptions return_lifetimes_bound.
+Print Assumptions shared_view_of_unique_handle_reborrows.
